@@ -199,7 +199,7 @@ impl Prop for Write {
         if fl.subsec != 0 {
             cx.label("non_zero_subsecond");
         }
-        let r = catch(|| mk_dt_off(c.i.i(), c.off).format_rfc3339(precision(c.prec)));
+        let r = catch(|| mk_dt_off_any(c.i.i(), c.off).format_rfc3339(precision(c.prec)));
         let s = match r {
             Ok(s) => s,
             Err(p) => return fail("c13.format_rfc3339_panic", "format_rfc3339 returns", p.short()),
